@@ -654,7 +654,7 @@ fn addition(i: u32) -> (DelimiterTag, IppAttribute, &'static str) {
 const N_ADD: u32 = 8;
 
 /// base programs: (name, number of optional-setter subsets)
-const BASES: [(&str, u32); 13] = [
+const BASES: [(&str, u32); 14] = [
     ("print_job", 8),
     ("get_printer_attributes", 3),
     ("create_job", 4),
@@ -668,6 +668,7 @@ const BASES: [(&str, u32); 13] = [
     ("raw_request_with_uri", 1),
     ("raw_request_without_uri", 1),
     ("response", 1),
+    ("response_with_second_operation_group", 1),
 ];
 
 fn c09_build(base: usize, subset: u32, adds: &[u32]) -> IppRequestResponse {
@@ -749,7 +750,13 @@ fn c09_build(base: usize, subset: u32, adds: &[u32]) -> IppRequestResponse {
         9 => IppOperationBuilder::cups().delete_printer(uri).into_ipp_request(),
         10 => IppRequestResponse::new(IppVersion::v2_0(), Operation::GetJobs, Some(uri)),
         11 => IppRequestResponse::new(IppVersion::v1_1(), Operation::CupsGetPrinters, None),
-        _ => IppRequestResponse::new_response(IppVersion::v1_1(), StatusCode::SuccessfulOk, 5),
+        12 => IppRequestResponse::new_response(IppVersion::v1_1(), StatusCode::SuccessfulOk, 5),
+        _ => {
+            // a message that already holds a second, empty operation-attributes group (public API: groups_mut)
+            let mut r = IppRequestResponse::new(IppVersion::v1_1(), Operation::GetJobAttributes, Some(uri));
+            r.attributes_mut().groups_mut().push(IppAttributeGroup::new(DelimiterTag::OperationAttributes));
+            r
+        }
     };
     for a in adds {
         let (tag, attr, _) = addition(*a);
@@ -758,7 +765,7 @@ fn c09_build(base: usize, subset: u32, adds: &[u32]) -> IppRequestResponse {
     req
 }
 
-fn c09_oracle(bytes: &[u8]) -> Result<(), (String, String)> {
+fn c09_oracle(bytes: &[u8], in_memory_op_names: &BTreeSet<String>) -> Result<(), (String, String)> {
     let m = r1::decode(bytes).map_err(|e| ("malformed".to_string(), format!("{} in {}", e.0, hex(&bytes[..bytes.len().min(100)]))))?;
     let names = |g: &r1::Group| g.attrs.iter().map(|a| String::from_utf8_lossy(&a.name).to_string()).collect::<Vec<_>>();
     let g0 = m.groups.first().ok_or_else(|| ("no-groups".to_string(), "no attribute group at all".to_string()))?;
@@ -772,6 +779,13 @@ fn c09_oracle(bytes: &[u8]) -> Result<(), (String, String)> {
     }
     if n.get(1).map(|s| s.as_str()) != Some("attributes-natural-language") {
         return Err(("language-not-second".into(), format!("operation attributes are {}", shown)));
+    }
+    // nothing the message holds in its operation groups may be lost (or invented) by the encoder
+    let on_wire: BTreeSet<String> = m.groups.iter().filter(|g| g.tag == r1::TAG_OPERATION).flat_map(|g| names(g)).collect();
+    if &on_wire != in_memory_op_names {
+        let lost: Vec<&String> = in_memory_op_names.difference(&on_wire).collect();
+        let extra: Vec<&String> = on_wire.difference(in_memory_op_names).collect();
+        return Err(("operation-attributes-lost-or-invented".into(), format!("operation attributes lost on the wire: {:?}, invented: {:?}", lost, extra)));
     }
     let has = |x: &str| n.iter().any(|s| s == x);
     // the mandatory / target attributes belong to the FIRST operation group: one that was pushed into a
@@ -837,15 +851,20 @@ fn c09_program(base: usize, subset: u32, adds: &[u32], st: &mut Stats) {
         }
         let r = std::panic::catch_unwind(|| {
             let inst = c09_build(base, subset, adds);
-            (remainder(&inst), inst.to_bytes().to_vec())
+            let op_names: BTreeSet<String> = inst
+                .attributes()
+                .groups_of(DelimiterTag::OperationAttributes)
+                .flat_map(|g| g.attributes().keys().cloned().collect::<Vec<_>>())
+                .collect();
+            (remainder(&inst), inst.to_bytes().to_vec(), op_names)
         });
         match r {
-            Ok((order, bytes)) => {
+            Ok((order, bytes, op_names)) => {
                 if seen.insert(order.clone()) {
                     st.traces += 1;
                     st.states.insert(fnv(&bytes));
                     if failure.is_none() {
-                        if let Err((c, d)) = c09_oracle(&bytes) {
+                        if let Err((c, d)) = c09_oracle(&bytes, &op_names) {
                             failure = Some((c, format!("{} with in-memory order {:?}: {}", describe(), order, d)));
                         }
                     }
